@@ -38,6 +38,9 @@ def run(ctx):
     check_order(ctx)
     check_capture(ctx)
     check_where_end(ctx, 'R9.6')
+    from .. import rules_tree as RT2
+    ctx.rule('R9.7', 'grouping is total: no size/depth cut-off in the drivers and passes this property relies on', floor=1)
+    RT2.check_no_cutoff(ctx, 'R9.7', only={'_group_matching', '_group'})
 
 
 def check_stack(ctx):
@@ -248,6 +251,7 @@ def driver_excludes_delimiters(ctx, g):
     out = {}
     # locals that hold (tlist.tokens[0], tlist.tokens[-1]) under an isinstance test covering all overriding classes
     dvars = {}
+    closing_kind = {}
     for n in ast.walk(g.node):
         if isinstance(n, ast.If):
             t = n.test
@@ -257,11 +261,20 @@ def driver_excludes_delimiters(ctx, g):
                 except NotConst:
                     continue
                 names = {x.cls.name for x in (v if isinstance(v, tuple) else (v,)) if isinstance(x, ClsRef)}
+                closing_vars = {}
                 for s_ in n.body:
+                    # `_, closing = tlist.token_prev(len(tlist.tokens), skip_cm=True)`: the last child that is not whitespace/comment
+                    if isinstance(s_, ast.Assign) and isinstance(s_.targets[0], ast.Tuple) and len(s_.targets[0].elts) == 2 \
+                            and isinstance(s_.value, ast.Call) and is_attr(s_.value.func, 'token_prev', tl) and s_.value.args \
+                            and src(s_.value.args[0]) == f'len({tl}.tokens)' \
+                            and any(k.arg == 'skip_cm' and isinstance(k.value, ast.Constant) and k.value.value is True for k in s_.value.keywords):
+                        closing_vars[s_.targets[0].elts[1].id] = 'skips-comments'
                     if isinstance(s_, ast.Assign) and is_name(s_.targets[0]) and isinstance(s_.value, ast.Tuple):
                         elts = [src(e) for e in s_.value.elts]
-                        if f'{tl}.tokens[0]' in elts and f'{tl}.tokens[-1]' in elts and set(overriding) <= names:
+                        last = next((e for e in elts if e == f'{tl}.tokens[-1]' or e in closing_vars), None)
+                        if f'{tl}.tokens[0]' in elts and last is not None and set(overriding) <= names:
                             dvars[s_.targets[0].id] = names
+                            closing_kind[s_.targets[0].id] = 'skips-comments' if last in closing_vars else 'last-child'
     prevv = nextv = None
     for (k, s_, v, nm) in []:
         pass
@@ -273,7 +286,19 @@ def driver_excludes_delimiters(ctx, g):
                     out['left'] = True
                 if operand.startswith('next'):
                     out['right'] = True
-    return out, f'delimiter variables {sorted(dvars)} cover {overriding}; guards on the grouping: {[e for e, p in facts if not p]}'
+    # a _group client that runs after align_comments sees groups whose last child may be an attached comment
+    grp = repo.func('sqlparse.engine.grouping.group')
+    lists = [n for n in own_nodes(grp.node) if isinstance(n, ast.List) and len(n.elts) > 5]
+    order = [e.id for e in lists[0].elts if isinstance(e, ast.Name)] if lists else []
+    if 'align_comments' in order:
+        later = order[order.index('align_comments') + 1:]
+        clients_after = [p_ for p_ in later if p_ in grp.mod.funcs and any(
+            isinstance(c, ast.Call) and is_name(c.func, '_group') for c in own_nodes(grp.mod.funcs[p_].node, include_lambdas=False))]
+        if clients_after and out.get('right') and not all(k == 'skips-comments' for k in closing_kind.values()):
+            out['right'] = False
+            return out, (f'closing delimiter taken as {tl}.tokens[-1], but {clients_after} run after align_comments, which appends trailing '
+                         'comments to the group: the closing token is then not the last child and is not protected')
+    return out, f'delimiter variables {sorted(dvars)} ({closing_kind}) cover {overriding}; guards on the grouping: {[e for e, p in facts if not p]}'
 
 
 def check_where_end(ctx, rid):
